@@ -46,6 +46,7 @@ DoOutputImplementation(uint32 maxBytes)
             flat.WriteBytes(reinterpret_cast<const uint8 *>(nextStr->Cstr()), nextStr->Length());   // Note that we write Length() bytes, NOT FlattenedSize()
             flat.WriteBytes(reinterpret_cast<const uint8 *>(_eolString()),    _eolString.Length()); // bytes (i.e. we don't write NUL terminator byte)
          }
+         flat.WriteByte(0);  // the NUL byte that (outBufLen) reserved space for; it is not sent, but DataFlattener insists that the whole buffer gets written
 
          const uint8 * outBytes      = outBuf()->GetBuffer();
          const uint32 numBytesToSend = outBuf()->GetNumBytes()-1;  // don't send the NUL terminator byte; receivers shouldn't rely on it anyway
